@@ -21,6 +21,10 @@ CHECKS = {
    technique="exhaustive single I/O-fault injection (every storage operation of the last call, reads included) on the real crate",
    text="For every history up to the stated depths and every storage operation (write, delete, truncate, read, length query) issued by its last call (open included), that operation fails once with an I/O error: the call must return Err (no Ok, no panic), and reopening must show the before-or-after state and stay usable.",
    note="One fault per execution; the failed operation is not applied. Trusted: journaling backend, list model."),
+ "C03": dict(cat="model_checking", ref="DESIGN.md §2 C03",
+   technique="explicit-state BFS to saturation over exact replica storage images, transitions executed by the real writer and replica (E2), plus live request sequences from saturated states",
+   text="For each writer log shape (1..N blocks, singles/batch/mixed builds, cleared-block variants, growth rounds) all replica states reachable by well-formed requests are enumerated to saturation (unbounded request-order depth): from every state every upgrade target, block, hash-of-full-node and seek request is proved by the real writer and applied by the real replica. Oracle: a proof is returned (none iff the block is cleared on the writer), it is accepted, and replica info/has/get equal the replica model; the complete replica must be reachable. Live walks cover non-reopened sequences.",
+   note="State = replica storage image after close (exact, no abstraction). Trusted: replica model, reference flat-tree arithmetic used to classify requests. Hash requests for a node straddling the replica length together with an upgrade, and seek+block requests whose byte lies outside the requested subtree, are not owed a proof (if one is produced it must be accepted)."),
 }
 
 PENDING = {
